@@ -275,8 +275,65 @@ def gen_traces(n, nevents, seed):
                 ok, back = attempt(uri.unpack_extension, enc)
                 events.append({"ev": "ueb", "items": [[list(k.encode()), list(v)] for k, v in d.items()], "enc": list(enc),
                                "back": {"ok": ok, "items": [[list(k.encode()), list(v)] for k, v in sorted(back.items(), key=lambda kv: kv[0].encode())] if ok else []}})
+        # share containers of both on-disk versions (a server that was upgraded still holds version-1 containers): what was
+        # written into a container - data and lease records - is what a fresh reader object decodes from it
+        events += container_events(rng)
         traces.append({"consts": {"seed": seed}, "events": events})
     return traces
+
+
+def container_events(rng):
+    import os, shutil, tempfile
+    from allmydata.storage.immutable import ShareFile
+    from allmydata.storage.mutable import MutableShareFile
+    from allmydata.storage import immutable_schema, mutable_schema
+    from allmydata.storage.lease import LeaseInfo
+    out = []
+    d = tempfile.mkdtemp(prefix="c38c")
+    try:
+        for kind, mod, cls in (("imm", immutable_schema, ShareFile), ("mut", mutable_schema, MutableShareFile)):
+            for version in (1, 2):
+                schema = mod.schema_from_version(version) if kind == "imm" else [sc for sc in mod.ALL_SCHEMAS if sc.version == version][0]
+                path = os.path.join(d, "%s%d" % (kind, version))
+                data = bytes(rng.randrange(256) for _ in range(rng.randint(1, 40)))
+                leases = [{"rs": bytes([10 + i]) * 32, "cs": bytes([60 + i]) * 32, "exp": 1000000 + rng.randrange(10 ** 6), "owner": i + 1}
+                          for i in range(rng.randint(1, 6 if kind == "mut" else 3))]
+                ev = {"ev": "container", "kind": kind, "version": version, "nleases": len(leases), "error": ""}
+                try:
+                    if kind == "imm":
+                        sf = ShareFile(path, max_size=len(data), create=True, lease_count_format="L", schema=schema)
+                        sf.write_share_data(0, data)
+                    else:
+                        sf = MutableShareFile(path, schema=schema)
+                        sf.create(b"n" * 20, b"w" * 32)
+                        sf.writev([(0, data)], None)
+                    for l in leases:
+                        sf.add_lease(10 ** 9, LeaseInfo(owner_num=l["owner"], renew_secret=l["rs"], cancel_secret=l["cs"],
+                                                        expiration_time=l["exp"], nodeid=b"n" * 20)) if kind == "mut" else \
+                            sf.add_lease(LeaseInfo(owner_num=l["owner"], renew_secret=l["rs"], cancel_secret=l["cs"],
+                                                   expiration_time=l["exp"], nodeid=b"n" * 20))
+                    del sf
+                    rd = cls(path)            # a fresh reader: the version comes from the header
+                    got = list(rd.get_leases())
+                    back = rd.read_share_data(0, len(data) + 5) if kind == "imm" else rd.readv([(0, len(data) + 5)])[0]
+                    ev["data_ok"] = (back == data)
+                    ev["count_ok"] = (len(got) == len(leases))
+                    ev["leases"] = [{"renew_answers": any(g.is_renew_secret(l["rs"]) for g in got),
+                                     "cancel_answers": any(g.is_cancel_secret(l["cs"]) for g in got),
+                                     "exp_ok": any(g.is_renew_secret(l["rs"]) and int(g.get_expiration_time()) == l["exp"] for g in got)}
+                                    for l in leases]
+                    # the owner renews: the record that answers to the secret moves, no record is added
+                    l0 = leases[0]
+                    rd.renew_lease(l0["rs"], l0["exp"] + 777)
+                    got2 = list(cls(path).get_leases())
+                    ev["renew_ok"] = (len(got2) == len(leases) and any(g.is_renew_secret(l0["rs"]) and int(g.get_expiration_time()) == l0["exp"] + 777 for g in got2))
+                except Exception as e:
+                    ev["error"] = "%s: %s" % (type(e).__name__, str(e)[:120])
+                    ev.setdefault("data_ok", False); ev.setdefault("count_ok", False); ev.setdefault("leases", []); ev.setdefault("renew_ok", False)
+                out.append(ev)
+    finally:
+        shutil.rmtree(d, ignore_errors=True)
+    return out
 
 
 def main():
